@@ -579,3 +579,6 @@ func (p *PacketConn) SetBlackHole(v bool) {
 	p.BlackHole = v
 	p.mu.Unlock()
 }
+
+// Capture returns the capture record of the connection this end belongs to.
+func (c *Conn) Capture() *StreamCapture { return c.cap }
